@@ -8,6 +8,7 @@ PObj of the real exception class, so try/except/finally and exceptional postcond
 """
 import ast
 import builtins
+import os
 import enum
 import importlib
 import inspect
@@ -65,6 +66,14 @@ class Shared:
         self.no_convert = set()
         self.no_spec = set()
         self.rlimit = rlimit
+        self.timeout_ms = 30000 if rlimit <= 50_000_000 else 300000
+        self.hard_timeout_s = 0
+        self.hard_timeouts = 0
+        quick = rlimit <= 50_000_000
+        self.z3_first_ms = 2500 if quick else 20000
+        self.cvc5_ms = 15000 if quick else 120000
+        self.z3_unknown = 0
+        self.cvc5_decided = 0
         self.max_paths = max_paths
         self.trusted = set()
         self.solver_calls = 0
@@ -72,6 +81,28 @@ class Shared:
         self.functions = {}      # qualname -> info of every function whose real AST was executed
         self.summaries = {}      # real function -> summary callable(interp, args, kwargs)
         self.models_extra = {}
+
+
+def cvc5_check(solver, tlimit_ms):
+    """the assertions of a z3 solver, decided by the cvc5 binary -> 'sat' | 'unsat' | 'unknown'"""
+    import subprocess
+    import tempfile
+    smt = '(set-logic ALL)\n' + solver.to_smt2()
+    fd, path = tempfile.mkstemp(suffix='.smt2')
+    try:
+        with os.fdopen(fd, 'w') as f:
+            f.write(smt)
+        r = subprocess.run(['/usr/bin/cvc5', '--strings-exp', f'--tlimit={tlimit_ms}', path], capture_output=True, text=True,
+                           timeout=tlimit_ms / 1000 + 10)
+        out = r.stdout.strip().splitlines()
+        return out[0] if out and out[0] in ('sat', 'unsat') else 'unknown'
+    except Exception:   # noqa
+        return 'unknown'
+    finally:
+        try:
+            os.unlink(path)
+        except OSError:
+            pass
 
 
 class Ctx:
@@ -83,6 +114,7 @@ class Ctx:
         self.shared = shared
         self.solver = z3.Solver()
         self.solver.set('rlimit', shared.rlimit)
+        self.solver.set('timeout', shared.timeout_ms)
         self.alts = []
         self.counters = {}
         self.guards = []
@@ -91,6 +123,7 @@ class Ctx:
         self.inputs = []         # (name, z3 const, kind) created by the contract
         self.side = []           # side obligations: (name, formula)  -- must hold under pc at that point
         self.lift_cache = {}
+        self.memo = {}
         self.depth = 0
         self.notes = []
 
@@ -120,18 +153,82 @@ class Ctx:
         self.pc.append(f)
         self.solver.add(f)
 
-    def check(self, extra=None):
+    def check(self, extra=None, budget_ms=None):
+        """z3 first (bounded); whatever z3 leaves `unknown` goes to cvc5 (which decides most str.to_int / regex queries z3
+        gives up on).  Returns z3.sat / z3.unsat / z3.unknown; after a cvc5 `sat` there is no z3 model (self.model_ok False)."""
         import time
         t0 = time.time()
-        self.shared.solver_calls += 1
+        sh = self.shared
+        sh.solver_calls += 1
+        self.model_ok = True
         if extra is not None:
             self.solver.push()
             self.solver.add(extra)
-        r = self.solver.check()
-        if extra is not None:
-            self.solver.pop()
-        self.shared.solver_time += time.time() - t0
+        try:
+            self.solver.set('timeout', budget_ms or sh.z3_first_ms)
+            r = self.safe_check()
+            if r == z3.unknown:
+                sh.z3_unknown += 1
+                ans = cvc5_check(self.solver, sh.cvc5_ms)
+                if ans == 'unsat':
+                    sh.cvc5_decided += 1
+                    r = z3.unsat
+                elif ans == 'sat':
+                    sh.cvc5_decided += 1
+                    r = z3.sat
+                    self.model_ok = False
+        finally:
+            self.solver.set('timeout', sh.timeout_ms)
+            if extra is not None:
+                self.solver.pop()
+        dt = time.time() - t0
+        sh.solver_time += dt
+        if dt > 2 and os.environ.get('PYVC_TRACE'):
+            print(f'[slow check] {dt:.1f}s -> {r}; extra={str(extra)[:300]}; pc tail={[str(x)[:200] for x in self.pc[-4:]]}', flush=True)
         return r
+
+    def safe_check(self):
+        """solver.check(), behind a forked pre-check with a hard wall-clock limit when the contract asks for it"""
+        if not self.shared.hard_timeout_s:
+            return self.solver.check()
+        r = self._forked_check(self.shared.hard_timeout_s)
+        if r == 'sat':
+            return self.solver.check()       # for the model; the child has just shown that this terminates
+        return z3.unsat if r == 'unsat' else z3.unknown
+
+    def _forked_check(self, limit_s):
+        """solver.check() in a forked child under a hard wall-clock limit (z3's own timeout is not honoured inside some
+        string/regex procedures); 'unknown' on expiry"""
+        import os
+        import select
+        import signal
+        rfd, wfd = os.pipe()
+        pid = os.fork()
+        if pid == 0:
+            try:
+                os.close(rfd)
+                r = self.solver.check()
+                os.write(wfd, str(r).encode())
+            finally:
+                os._exit(0)
+        os.close(wfd)
+        ans = 'unknown'
+        try:
+            ready, _, _ = select.select([rfd], [], [], limit_s)
+            if ready:
+                data = os.read(rfd, 32).decode()
+                if data in ('sat', 'unsat', 'unknown'):
+                    ans = data
+            else:
+                self.shared.hard_timeouts += 1
+        finally:
+            os.close(rfd)
+            try:
+                os.kill(pid, signal.SIGKILL)
+            except ProcessLookupError:
+                pass
+            os.waitpid(pid, 0)
+        return ans
 
     def choose(self, conds, label=''):
         """pick one of several alternatives (z3 Bools); the others are queued as new paths"""
@@ -144,6 +241,7 @@ class Ctx:
             self.assume(conds[idx])
             return idx
         feas = []
+        # feasibility only prunes: `unknown` keeps the alternative
         for i, c in enumerate(conds):
             if z3.is_false(c):
                 continue
@@ -187,6 +285,7 @@ class Frame:
         self.parent = parent
         self.func = func
         self.global_names = set()
+        self.first_param = None
 
 
 NATIVE_OK = (types.FunctionType, types.BuiltinFunctionType, types.ModuleType, type, enum.Enum, _re.Pattern,
@@ -278,6 +377,8 @@ class Interp:
             return len(v) > 0
         if isinstance(v, JsonText):
             return True
+        if isinstance(v, Opaque) and v.truthy is not None:
+            return v.truthy
         if isinstance(v, (Foreign, Opaque)):
             raise Unsupported('truth value of an opaque object')
         if isinstance(v, (Closure, BoundMethod, BuiltinMethod)) or isinstance(v, NATIVE_OK):
@@ -564,6 +665,8 @@ class Interp:
             return self.call_closure(fn, list(args), kwargs)
         if isinstance(fn, Foreign):
             return Opaque()
+        if isinstance(fn, types.MethodType):
+            return self.call(fn.__func__, [self.lift(fn.__self__)] + list(args), kwargs)
         if isinstance(fn, (staticmethod, classmethod)):
             fn = fn.__func__
         if isinstance(fn, property):
@@ -620,7 +723,10 @@ class Interp:
         if func.__closure__:
             for name, cell in zip(func.__code__.co_freevars, func.__closure__):
                 try:
-                    frame.locals[name] = self.lift(cell.cell_contents)
+                    if name == '__class__':
+                        frame.defcls = cell.cell_contents
+                    else:
+                        frame.locals[name] = self.lift(cell.cell_contents)
                 except ValueError:
                     pass
         defaults = [self.lift(d) for d in (func.__defaults__ or ())]
@@ -650,6 +756,7 @@ class Interp:
 
     def bind_args(self, a, frame, args, kwargs, defaults, kwdefaults, fname):
         params = [p.arg for p in a.posonlyargs + a.args]
+        frame.first_param = params[0] if params else None
         kwargs = dict(kwargs)
         n = len(params)
         loc = frame.locals
@@ -1223,10 +1330,9 @@ class Interp:
     def ex_Call(self, e, frame):
         # super() needs the frame
         if isinstance(e.func, ast.Name) and e.func.id == 'super' and not e.args:
-            slf = frame.locals.get(next(iter(frame.locals), None))
-            if frame.defcls is None:
-                raise Unsupported('super() outside of a class')
-            return SuperProxy(frame.defcls, slf)
+            if frame.defcls is None or frame.first_param is None:
+                raise Unsupported('super() outside of a method')
+            return SuperProxy(frame.defcls, frame.locals[frame.first_param])
         fn = self.eval(e.func, frame)
         args = self.eval_seq(e.args, frame)
         kwargs = {}
